@@ -213,4 +213,30 @@ Definition s_sp_insert (self_ : (sparse A)) (row_ : nat) (col_ : nat) (value_ : 
                  | inr r7 => Ok r7
                  end))).
 
+(* src/sparse.rs : impl < T : Copy + Number + std :: fmt :: Debug > Sparse < T > :: fn from_triplets *)
+Definition s_sp_from_triplets (rows_ : nat) (cols_ : nat) (triplets_ : (list (nat * nat * (T A)))) : res ((list (nat * nat * (T A))) * (sparse A)) :=
+  let triplets_ := (sort_by_col triplets_) in
+  let row_index_ := (@nil nat) in
+  let col_index_ := (@nil nat) in
+  let val_ := (@nil (T A)) in
+  let nonzero_ := 0 in
+  let* (row_index_, col_index_, val_, nonzero_) := for_in triplets_ (fun triplet_ (s1 : ((list nat) * (list nat) * (list (T A)) * nat)) =>
+          let '(row_index_, col_index_, val_, nonzero_) := s1 in
+          let row_ := (fst (fst triplet_)) in
+          let col_ := (snd (fst triplet_)) in
+          if (rows_ <=? row_)%nat
+          then (Panic Guard)
+          else (if (cols_ <=? col_)%nat
+               then (Panic Guard)
+               else (let row_index_ := (row_index_ ++ [(fst (fst triplet_))]) in
+                    let col_index_ := (col_index_ ++ [(snd (fst triplet_))]) in
+                    let val_ := (val_ ++ [(snd triplet_)]) in
+                    let nonzero_ := (nonzero_ + 1)%nat in
+                    Ok (row_index_, col_index_, val_, nonzero_)))) (row_index_, col_index_, val_, nonzero_) in
+  let triplets_ := (@nil (nat * nat * (T A))) in
+  let sparse_ := (mkS rows_ cols_ nonzero_ val_ row_index_ (repeat 0 (cols_ + 1)%nat)) in
+  let* r2 := sp_col_start_from_index sparse_ col_index_ in
+  let sparse_ := (mkS (sp_rows sparse_) (sp_cols sparse_) (sp_nonzero sparse_) (sp_val sparse_) (sp_row_index sparse_) r2) in
+  Ok (triplets_, sparse_).
+
 End SrcSparse.
